@@ -32,7 +32,7 @@ def run_model(ctx, lines):
     return res
 
 
-def golex(ctx, cases):
+def golex(ctx, cases, res):
     """the LEXICAL tie: the REAL text of every item (width 120) is lexed by Model/GoLex.lean (`gomlmodel golex`), which
     must return the tokens the model's `Doc.pieces` predicts (with Go's automatic semicolons), and by the tokenizer of
     harness/src/goparse.rs (`gv golex`), an independent second lexer that must return the same kinds and texts"""
@@ -65,21 +65,22 @@ def golex(ctx, cases):
             continue
         c["items_lexed"] += 1
         c["tokens"] += int(m[2]); c["automatic_semicolons"] += int(m[3])
-        wf = m[4] == "true"
+        gf = (res.get(k) or [""] * 6)[5:6] == ["true"]
+        wf = m[4] == "true" and gf
         if wf:
-            c["items_all_tokens_wf(hypotheses of lex_render_tokens)"] += 1
+            c["items_all_tokens_wf_and_glueFree(hypotheses of lex_render_tokens)"] += 1
         if m[5] == "true":
             c["items_with_a_qualified_name(split at the dot)"] += 1
         if m[1] != "eq":
             # a synthetic item may hold texts outside Go's token grammar (empty names, NaN / inf spelled by Rust, …):
-            # there the model's pieces are not `wf`; for a wf item and for every compiler-produced item a difference
+            # and glued tokens (`--nil`, `0.(T)`): there the model's pieces are not `wf` or not `glueFree`; for a wf, glue-free item and for every compiler-produced item a difference
             # breaks the tie
             if comp or wf:
                 nbad += 1
                 if nbad <= 5:
                     ctx.broken_ties.append(("go-lexer-model", f"{k}: Model/GoLex.lean on the real text gives {m[1]}, not the token list of the model's Doc.pieces: {vlib.unesc(r[5])[:400]}"))
             else:
-                c["synthetic_not_wf_and_lexed_differently"] += 1
+                c["synthetic_not_wf_or_glued_and_lexed_differently"] += 1
             continue
         c["items_lex_equals_model_pieces"] += 1
         if g is None or g[0] != "ok":
@@ -206,7 +207,7 @@ def evaluate(ctx, extra=()):
         "ast_forms_seen(items containing)": dict(sorted(forms.items())),
         "synthetic(strictness, goparse verdict, model verdict)": {" / ".join(k): v for k, v in sorted(syn.items())},
         "theorem_reach": dict(roots),
-        "golex(character-level lexer on the real text)": golex(ctx, cases),
+        "golex(character-level lexer on the real text)": golex(ctx, cases, res),
         "samples": samples,
         "rule": "distinct = distinct item dumps; every item is printed by the real printer at three widths and by the model; equality is on bytes",
     }
